@@ -15,7 +15,8 @@ RULE = ("(a) well-typed first- and higher-order expressions over generated langu
         "arguments included) is compared with the independent data-flow graph; non-trivial = at least two operator applications; distinct by (language, expression)")
 ASSUMPTIONS = ["spines headed by a source of function type (`- x`) are outside the statement and are not generated here",
 
-               "part (b) is implementation vs independent specification only (abstractions are not in the Lean graph model yet)"]
+               "part (b): with the minimal switches the graph of the expansion is also compared with the model (Tfv/Model/GraphAbs.lean, abstractions in "
+               "argument position); with the default switches it is implementation vs independent specification only"]
 TRUSTED = ["the independent data-flow construction `flow_graph` below (oracle)", "rdflib.compare.isomorphic"]
 
 
@@ -171,6 +172,46 @@ def one_case(ctx, li, spec, ops, opdecls, lang, tree, ninputs):
                 {"check": "data-flow", "higher_order": " tf:internal " in gtext}, replay)
 
 
+def dump_aexpr(e):
+    """an expanded expression (abstractions in argument position) as the tree the model's `gexpra` command reads; types are
+    rendered structurally only (function or not is all the data-flow wiring reads)"""
+    from transforge import expr as E
+    from transforge import type as T
+    srcs, pvars = [], []
+
+    def ty(t, depth=0):
+        t = t.follow()
+        if isinstance(t, T.TypeVariable) or depth > 6:
+            return "(v 0)"
+        if t.operator == T.Function:
+            return "(4 " + ty(t.params[0], depth + 1) + " " + ty(t.params[1], depth + 1) + ")"
+        return "(5)"
+
+    def ident(x, table):
+        for k, y in enumerate(table):
+            if y is x:
+                return k
+        table.append(x)
+        return len(table) - 1
+
+    def go(x):
+        if isinstance(x, E.Application):
+            return f"(app {go(x.f)} {go(x.x)} {ty(x.type)})"
+        if isinstance(x, E.Operation):
+            return f"(op {x.operator.name} {ty(x.type)})"
+        if isinstance(x, E.Source):
+            return f"(src {ident(x, srcs)} {ty(x.type)})"
+        if isinstance(x, E.Abstraction):
+            ps = " ".join(str(ident(p, pvars)) for p in x.params)
+            return f"(lam ({ps}) {go(x.body)} {ty(x.type)})"
+        if isinstance(x, E.Variable):
+            if x.bound:
+                return go(x.bound)
+            return f"(pvar {ident(x, pvars)} {ty(x.type)})"
+        raise ValueError(type(x).__name__)
+    return go(e)
+
+
 def composite_cases(ctx):
     """(b) expanded composite operators"""
     from rdflib import BNode
@@ -188,9 +229,23 @@ def composite_cases(ctx):
             except Exception as ex:  # noqa
                 ctx.count("composite_skipped_" + type(ex).__name__)
                 continue
-            g = TransformationGraph(fam.lang, minimal=True, with_operators=True) if k % 2 else TransformationGraph(fam.lang)
+            minimal = bool(k % 2)
+            g = GG.make_graph(fam.lang, FLOW_BITS) if minimal else TransformationGraph(fam.lang)
+            root = BNode()
+            if minimal:
+                # the model builds the graph of the same tree (abstractions included: Tfv/Model/GraphAbs.lean)
+                try:
+                    out = GG.make_graph(fam.lang, FLOW_BITS)
+                    o2 = out.add_expr(p, root)
+                    gtext = GG.graph_text(out, fam.lang, root, o2)
+                except AssertionError:
+                    gtext = "E:Internal(add_expr:assert Application)"
+                except Exception as ex:  # noqa
+                    gtext = "E:X:" + type(ex).__name__
+                ctx.case(f"(gexpra {FLOW_BITS} {dump_aexpr(p)})", gtext, {"family": fam.to_json(), "text": text}, nontrivial=True, key=("comp", li, text), cmp=GG.iso)
+                ctx.evaluations -= 1
             try:
-                g.add_expr(p, BNode())
+                g.add_expr(p, root)
                 want, _ = flow_graph(p, fam.lang)
             except Exception as ex:  # noqa
                 ctx.fail(f"graph of the expansion of `{text}` raised {type(ex).__name__}: {ex}", {"check": "composite-graph-error", "exception": type(ex).__name__},
